@@ -354,6 +354,16 @@ func (r *e2e) fire(c *ctlState) {
 			c.done = true
 			k.Note(name, "ctl.resume.returned")
 		}()
+	case "resume-pause":
+		// one controller resumes and pauses again at once (a watchdog whose reading flips back): the second
+		// pause can be broadcast before the workers released by the resume have run
+		go func() {
+			k.Park(name, "ctl.resume.begin")
+			pause.Resume()
+			pause.Pause(c.a.Arg)
+			c.done = true
+			k.Note(name, "ctl.pause.returned")
+		}()
 	case "kill":
 		r.k.End("killed")
 		r.rec.EndReason = "killed"
@@ -423,6 +433,16 @@ func (r *e2e) hook() {
 }
 
 const stopBound = 20 * time.Minute
+
+// persistentFaults reports whether the scenario injects a fault that never ends (then "drains eventually" is not expected).
+func persistentFaults(sc *Scenario) bool {
+	for _, plan := range sc.LQFaults {
+		if len(plan) > 0 && strings.HasSuffix(plan[len(plan)-1], "*") {
+			return true
+		}
+	}
+	return false
+}
 
 func (r *e2e) finish() {
 	for _, o := range r.k.Oracles {
@@ -550,6 +570,17 @@ func RunE2E(t *testing.T, in *RunInput) {
 		}()
 		reason := k.Run(r.hook)
 		rec.EndReason = reason
+		if reason == "max-sim-time" && !r.idleTold && !r.stopFired && r.sc.StopAtIdle && !persistentFaults(r.sc) {
+			// bounded liveness: every injected fault is finite, and hours of simulated time later the crawl still has not
+			// drained. Whatever is undelivered now is judged as it would be at idle.
+			r.idleTold = true
+			k.Probe("not-idle-within-the-simulated-time-bound")
+			for _, o := range k.Oracles {
+				if io, ok := o.(IdleOracle); ok {
+					io.OnIdle(k)
+				}
+			}
+		}
 		r.finish()
 		r.writeRecord()
 		os.Exit(0)
